@@ -517,6 +517,16 @@ impl Searcher {
         self.timer.nodes()
     }
 
+    /// Forget everything a search can remember (table, killers, history heuristic, game history) without
+    /// rebuilding the attack tables: the state of a fresh `Searcher`, cheaply.
+    pub fn verif_reset(&mut self) {
+        self.transposition_table = TranspositionTable::new();
+        self.killer_moves = KillerMoves::new();
+        self.history = HistoryTable::new();
+        self.repetition = RepetitionTable::new();
+        self.timer = SearchTimer::new();
+    }
+
     /// One search at exactly `depth` with the given root window (what negamax does for an inner node):
     /// the alpha-beta contract can then be observed at the root of any position.
     pub fn verif_search_window(&mut self, board: &Board, depth: u8, alpha: i32, beta: i32) -> i32 {
